@@ -376,16 +376,16 @@ def exhaustive_cases(maxlen):
 def run(ctx):
     rng = ctx.rng
     # (a) every option combination with random data
-    reps = ctx.n(1, 10)
+    reps = ctx.n(1, 6)
     cases = []
     for _ in range(reps):
         for combo in range(192):
             cases.append(sc.gen_case(rng, combo=combo))
     # (c) FASTQ with empty reads
-    for _ in range(ctx.n(30, 400)):
+    for _ in range(ctx.n(30, 250)):
         cases.append(sc.gen_case(rng, fmt=rng.choice(["fastq", "fastq.gz"]), allow_empty_fastq=True))
     # repeated names in the list (what haplotag writes for paired-end reads), all options
-    for _ in range(ctx.n(30, 400)):
+    for _ in range(ctx.n(30, 250)):
         cases.append(sc.gen_case(rng, dup_list_names=True))
     # FASTQ reads files under every extension split lists as FASTQ (fastq, fastq.gz, fastq.gzip, fq, fq.gz, fq.gzip)
     for _ in range(ctx.n(2, 20)):
@@ -402,7 +402,7 @@ def run(ctx):
     by_sig, l2_bad, matchsets = process(ctx, res, "random")
     # more volume of (a), (c) and repeated list names through the in-process entry point
     more = []
-    for _ in range(ctx.n(2, 20)):
+    for _ in range(ctx.n(2, 16)):
         for combo in range(192):
             more.append(sc.gen_case(rng, combo=combo, allow_empty_fastq=rng.random() < 0.1,
                                     dup_list_names=True if rng.random() < 0.15 else None))
